@@ -1,7 +1,7 @@
 (* wire glue for engine 114 (C14: csv codec, tablib glue, _sanitize, table<->dicts) *)
 (* WIRE engine=114 fn=dispatch_c14 *)
 From Coq Require Import List NArith Bool.
-From RPFT Require Import Base.Sexp Base.PyStr Base.Result Gen.Tables Io.Csv Io.Sanitize.
+From RPFT Require Import Base.Sexp Base.PyStr Base.Result Gen.Tables Io.Csv Io.Sanitize Io.TreeFlags.
 Import ListNotations.
 Local Open Scope N_scope.
 
@@ -11,7 +11,7 @@ Definition dec_rows (x : sexp) : option (list (list str)) := dec_list (dec_list 
 Definition err_code (e : io_err) : N :=
   match e with
   | EFieldLimit => 1 | ENewlineUnquoted => 2 | EInvalidDimensions => 3
-  | EIndex => 4 | EType => 5 | EAttr => 6
+  | EIndex => 4 | EType => 5 | EAttr => 6 | EFormat => 7
   end.
 
 Definition enc_res {T} (f : T -> sexp) (r : result io_err T) : sexp :=
@@ -34,11 +34,13 @@ Definition enc_jsheet (j : jsheet) : sexp :=
   match j with
   | JDicts l => L [A 0; enc_list (enc_list (enc_pair enc_str enc_str)) l]
   | JLists l => L [A 1; enc_rows l]
+  | JTable h l => L [A 2; enc_list enc_str h; enc_rows l]
   end.
 Definition dec_jsheet (x : sexp) : option jsheet :=
   match x with
   | L [A 0; l] => match dec_list (dec_list (dec_pair dec_str dec_str)) l with Some v => Some (JDicts v) | None => None end
   | L [A 1; l] => match dec_rows l with Some v => Some (JLists v) | None => None end
+  | L [A 2; h; l] => match dec_list dec_str h, dec_rows l with Some h', Some v => Some (JTable h' v) | _, _ => None end
   | _ => None
   end.
 
@@ -62,5 +64,11 @@ Definition dispatch_c14 (fn : N) (args : list sexp) : sexp :=
   | 8, [j] => with_opt (dec_jsheet j) (fun j => enc_res enc_table (from_dicts j))
   | 9, [r] => with_opt (dec_rows r) (fun recs => enc_res enc_table (csv_import_set recs))
   | 10, [s] => with_opt (dec_str s) (fun txt => enc_res enc_rows (rd (translate txt)))
+  | 11, [s] => with_opt (dec_str s) (fun txt =>
+                enc_res enc_table (read_csv_sheet csv_delimiter csv_quotechar csv_field_limit load_csv_translated tree_flags txt))
+  | 12, [t] => with_opt (dec_table t) (fun t => enc_jsheet (to_json_sheet tree_flags t))
+  | 13, [j] => with_opt (dec_jsheet j) (fun j => enc_res enc_table (read_json_sheet tree_flags j))
+  | 14, [] => L (map (fun b : bool => A (if b then 1 else 0))
+                     [csv_reader_drops_empty_rows; json_reader_drops_empty_rows; json_reader_table_form; to_json_table_form])
   | _, _ => s_badinput
   end.
